@@ -280,6 +280,13 @@ def run(facts):
                 bb_ = facts.by_did.get(it.get("did"))
                 if bb_ is not None and bb_.id not in ZERO_COPY:
                     more.append(bb_.id)
+    # .. and so is every `From<&'static ..> for Bytes` (the static data is viewed, never copied)
+    for im in facts.impls:
+        if im["self_ty"] == "bytes::Bytes" and (im.get("trait") or "") == "core::convert::From":
+            for it in im["items"]:
+                bb_ = facts.by_did.get(it.get("did"))
+                if bb_ is not None and "From<&'static" in bb_.id and bb_.id not in ZERO_COPY and bb_.id not in more:
+                    more.append(bb_.id)
     for z in ZERO_COPY + more:
         cands = facts.by_id.get(z, [])
         if len(cands) != 1:
@@ -348,6 +355,20 @@ def run(facts):
             res.ok(z, root.loc(), "no byte alloc/copy reachable through %d functions%s" % (len({d for d, _ in seen}), ("; exempt: " + "; ".join(sorted(set(exempted)))) if exempted else ""),
                    nontrivial=bool(exempted))
     res.floor("zero_copy_ops", n, 18)
+    # the crate never wraps its own storage as an *owner*: `Bytes::from_owner` is for callers' types.  An owner-backed handle belongs to the
+    # immutable family - is_unique() is constant false, into_mut / into_vec always copy - so a crate conversion that goes through it
+    # (`Bytes::from_owner(bytes_mut)`) keeps the address but turns every later "unique" conversion into a copy (who-may-call: nobody inside)
+    fo = facts.by_id.get("bytes::Bytes::from_owner", [])
+    if len(fo) == 1:
+        from .inline import callers_of
+        cs = [c for c in callers_of(facts, fo[0].did) if not facts.is_test(c)]
+        if cs:
+            res.bad("bytes::Bytes::from_owner|not used inside the crate", cs[0].loc(), "%s wraps a value in an owner-backed handle: such a handle never reports unique and every "
+                    "conversion out of it copies" % ", ".join(sorted(c.id for c in cs))[:300])
+        else:
+            res.ok("bytes::Bytes::from_owner|not used inside the crate", fo[0].loc(), "no crate function calls from_owner")
+    else:
+        res.bad("bytes::Bytes::from_owner|not used inside the crate", "-", "from_owner not found")
     # clone: the (ptr, len) given to the slot function are the (ptr, len) of every handle it can return, on every
     # path and through every helper (interprocedural role propagation: which parameters end up as a handle's ptr / len)
     role_memo = {}
